@@ -33,7 +33,10 @@ def _model(runner, prop, tier, seed, depth):
 
 
 MODEL_QUICK = {"C07": 3, "C08": 3, "C09": 3}
-MODEL_THOROUGH = {p: 4 for p in ("C02", "C03", "C04", "C05", "C06", "C07", "C08", "C09", "C11", "C12", "C13", "C14", "C15", "C16", "C18", "C19", "C20")}
+# thorough: depth 4 for the properties about the connection table and the gate (their violations need history),
+# depth 3 for the others the model can express (their clauses are per frame; depth buys little and costs 100x)
+MODEL_THOROUGH = dict({p: 3 for p in ("C02", "C03", "C04", "C05", "C06", "C11", "C12", "C13", "C14", "C15", "C16", "C18", "C19", "C20")},
+                      **{p: 4 for p in ("C07", "C08", "C09")})
 
 
 # Vacuity guard: the outcome actions of the specification (prefixes of the labels printed by
